@@ -385,6 +385,14 @@ def obligations(tier):
                               bounds='micro-structure %s in each of the 24 axis-permuting proper rotations' % name,
                               claim_doc='as O1-translation, hydrogens compared after the same rotation', max_paths=200, split_input=('rotation', 8),
                               outside='known finding F11 for incomplete arginines (reported as KNOWN-FINDING)' if '~' in name else ''))
+    # a cysteine carrying a mercaptoethanol adduct (mixed disulfide, the other sulfur is not a cysteine SG): whether the cysteine is
+    # bridged (and so not titrated) must not depend on the order in which the cell traversal meets the two sulfurs
+    obs.append(Obligation('O4-rotations[complex_BME]', mk_rotations('complex_BME'), code=code_pipe + ['propka/bonds.py:BondMaker._find_bonds_for_atoms'],
+                          bounds='tri_CYS with a mercaptoethanol adduct on the cysteine (synthetic S2-C2-C1-O1) in each of the 24 axis-permuting proper rotations',
+                          claim_doc='bonds, groups (the cysteine stays a bridged, non-titrated group), desolvation identical', max_paths=200, split_input=('rotation', 8)))
+    for ax, axn in (axes[:1] if tier == 'quick' else axes[:3]):
+        obs.append(Obligation('O1-translation[complex_BME,%s,built-hydrogens]' % axn, mk_translate('complex_BME', ax, 0.0, 2.509, False), code=code_pipe + ['propka/bonds.py:BondMaker._find_bonds_for_atoms'],
+                              bounds='tri_CYS with a mercaptoethanol adduct shifted by t = k/1000 along %s, t in [0,2.509]' % axn, claim_doc='as O1-translation (heavy-atom clauses)', max_paths=5000, wall_s=170 if tier == 'quick' else 1200))
     # the same with burial switched on: backbone reorganisation, Coulomb and iterative terms are then non-zero
     for name in (['pair_GLU_ARG_TYR', 'pep8'] if tier == 'quick' else ['pair_GLU_ARG_TYR', 'pep8', 'pair_ASP_ARG', 'pair_LYS_ASP', 'pair_ASP_ASP', 'complex_ZN']):
         obs.append(Obligation('O4-rotations[%s,buried]' % name, mk_rotations(name, M.BURIED), code=code_pipe + ['propka/energy.py:backbone_reorganization', 'propka/energy.py:radial_volume_desolvation'],
